@@ -42,9 +42,22 @@ type OpSpec struct {
 	// and different Var get near-identical, unequal arguments - what collides in
 	// value-keyed caches, memo tables and direct-mapped slots.
 	Var uint64 `json:"var,omitempty"`
+	// Warm > 0: before the operation itself, the same entry is called Warm times on
+	// arguments of its own (seeds derived from Seed, half of them from a pool of eight
+	// so that values recur), and those results are thrown away. The recorded outcome
+	// is the last call's. This is a long-lived caller: state that the library only
+	// starts to share after hundreds or thousands of calls (adaptive caches, warm-up
+	// thresholds, "every 1024th call" maintenance) is reached inside the simulation,
+	// at a cost of one call - not of one build-dump-compare - per repetition.
+	Warm int `json:"warm,omitempty"`
 }
 
 func (s OpSpec) String() string {
+	if s.Warm > 0 {
+		w := s.Warm
+		s.Warm = 0
+		return fmt.Sprintf("%s+warm%d", s.String(), w)
+	}
 	if s.Var != 0 {
 		return fmt.Sprintf("%s/%s#%x~%x", s.Fam, s.Name, s.Seed, s.Var)
 	}
@@ -89,6 +102,7 @@ type Catalogue struct {
 	autoRT    map[string][2]string   // type key -> marshal / unmarshal method names
 	Cost      []int                  // yields of one sequential execution per catalogue entry (from the probe step; nil if not probed)
 	Hot       []bool                 // the entry executed a hot site (package-level state, sync, atomic) in the probe step
+	HotVars   [][]int                // per entry: the package-level variables (indices into HotVarNames) whose statements it executed in the probe step
 	Size      []int                  // length of the canonical outcome dump (arguments + results) in the probe step: what building and comparing one call costs the harness
 }
 
@@ -253,6 +267,7 @@ type probeFile struct {
 	Samples []probeSample `json:"samples"`
 	Cost    []int         `json:"cost"`
 	Hot     []bool        `json:"hot"`
+	HotVars [][]int       `json:"hot_vars"`
 	Size    []int         `json:"size"`
 }
 
@@ -308,6 +323,7 @@ func (c *Catalogue) WriteProbe(path string) error {
 	}
 	out.Cost = c.Cost
 	out.Hot = c.Hot
+	out.HotVars = c.HotVars
 	out.Size = c.Size
 	b, err := json.Marshal(out)
 	if err != nil {
@@ -327,6 +343,7 @@ func (c *Catalogue) loadProbe(path string) error {
 	}
 	c.Cost = pf.Cost
 	c.Hot = pf.Hot
+	c.HotVars = pf.HotVars
 	c.Size = pf.Size
 	for i, s := range pf.Samples {
 		d, err := hex.DecodeString(s.Data)
@@ -792,6 +809,9 @@ func ifaces(vs []reflect.Value) []interface{} {
 // Build instantiates an operation. task is the executing task's index (used by
 // the recycle mode to find its pair).
 func (c *Catalogue) Build(spec OpSpec, env *Env, task int) *Inst {
+	if spec.Warm > 0 {
+		return c.buildWarm(spec, env, task)
+	}
 	r := NewRng(Mix(spec.Seed, Hash64(spec.Fam+"/"+spec.Name)))
 	in := &Inst{Spec: spec}
 	switch spec.Fam {
@@ -863,6 +883,74 @@ func (c *Catalogue) Build(spec OpSpec, env *Env, task int) *Inst {
 		return c.missing(in)
 	}
 	return in
+}
+
+// buildWarm: see OpSpec.Warm. All repetitions are built here (on the goroutine that
+// builds the run), only the calls themselves happen inside the operation.
+func (c *Catalogue) buildWarm(spec OpSpec, env *Env, task int) *Inst {
+	n := spec.Warm
+	spec.Warm = 0
+	in := c.Build(spec, env, task)
+	wr := NewRng(Mix(spec.Seed, 0x7761726d))
+	var pool [8]uint64
+	for i := range pool {
+		pool[i] = wr.U64()
+	}
+	warm := make([]*Inst, 0, n)
+	for i := 0; i < n; i++ {
+		ws := OpSpec{Fam: spec.Fam, Name: spec.Name, Seed: wr.U64()}
+		if wr.Bool() {
+			ws.Seed = pool[wr.Intn(len(pool))]
+		}
+		warm = append(warm, c.Build(ws, env, task))
+	}
+	// every repetition has a yield budget of its own (the library has inputs on which
+	// it never returns, e.g. nasConvert.LadnToModels on a zero length octet: such a
+	// repetition is cut off and the next one starts - it must not use up the budget of
+	// the recorded call, whose sequential reference is taken without any warm-up)
+	perRep := int64(20000)
+	if i, ok := c.entryIndex()[spec.Fam+"/"+spec.Name]; ok && i < len(c.Cost) {
+		perRep = 20*int64(c.Cost[i]) + 2000
+	}
+	do := in.Do
+	in.Do = func() []interface{} {
+		for _, w := range warm {
+			vsimrt.ArmLimit(perRep)
+			warmCall(w)
+		}
+		if vsimrt.Active() {
+			vsimrt.ArmLimit(simCap)
+		} else {
+			vsimrt.ArmLimit(maxBaselineYields + 1)
+		}
+		return do()
+	}
+	in.Spec.Warm = n
+	return in
+}
+
+var entryIdx map[string]int
+
+func (c *Catalogue) entryIndex() map[string]int {
+	if entryIdx == nil {
+		entryIdx = map[string]int{}
+		for i, e := range c.Entries {
+			entryIdx[e.Fam+"/"+e.Name] = i
+		}
+	}
+	return entryIdx
+}
+
+// warmCall runs one discarded repetition. A library panic ends that repetition only
+// (a server recovers from a handler that panicked and carries on), and so does the
+// repetition's own yield budget; an injected abort ends the whole operation.
+func warmCall(w *Inst) {
+	defer func() {
+		if p := recover(); p != nil && vsimrt.IsAbort(p) {
+			panic(p)
+		}
+	}()
+	w.Do()
 }
 
 // missing: the operation does not exist on this tree (e.g. a replay file from
